@@ -1,4 +1,5 @@
 import Swat4.Lemmas.Browsing
+import Swat4.Lemmas.BrowserReqBridge
 import Swat4.Properties.C02
 import Swat4.Spec.ServerList
 import Swat4.Spec.ServerListExpected
@@ -9,6 +10,10 @@ import Swat4.Gen.Facts
 Property theorems only.  `Browsing.*` is the model of `browsing.NewRequest`, `params.Marshal` and
 `browser.packServers`/`process`; `SBList.sdkDecode` is the SDK-side reference decoder and
 `SBList.encodeReq` the definition of a well-formed request, both written independently of it.
+
+`Lemmas/BrowserReqBridge.lean` (imported; `Swat4.BrowserReqBridge.newRequest_eq`) ties `Browsing.parseRequest`
+to the second, independently written model of `browsing.NewRequest` that C06 uses: same outcome class and
+same field list on every byte string.
 -/
 namespace Swat4.C01
 open Swat4 Swat4.Browsing Swat4.SBList
@@ -144,6 +149,69 @@ theorem C01_main (r : ListRequest) (h : WfReq r)
       exact sdkDecode_pack Schema.facts client _ selected defaultPort (by omega) (known_nulFree r)
         facts_ok.2.2.2.2 hwt hip
 
+/-! ### the handler's read buffer
+
+`browser.Handler.Handle` (`internal/browser/browser.go`): `buf := make([]byte, 2048); n, err := conn.Read(buf);
+payload := buf[:n]` — ONE `Read` into a 2048-byte buffer, then `process(payload)`.  Whatever the client
+sent beyond 2048 bytes is never looked at (the connection is closed by the deferred `conn.Close()`).
+`WfReq.length` only bounds a request by the 16-bit prefix (65535); the two theorems below say what the
+handler makes of a well-formed request on either side of the buffer size, assuming the single `Read`
+delivers everything available up to the buffer size (TCP segmentation is outside the model: a request that
+arrives in two segments is cut at the first one by the same code). -/
+
+/-- the size of the handler's read buffer (`browser.go`, `make([]byte, 2048)`) -/
+def readBufferSize : Nat := 2048
+
+/-- what `process` is given when the client sent `sent` -/
+def handlerPayload (sent : Bytes) : Bytes := sent.take readBufferSize
+
+/-- **C01 for requests that fit the read buffer.**  `C01_main` with the handler's 2048-byte read made
+explicit: for a well-formed request of at most 2048 bytes the payload `process` sees is the whole
+request, and the reply decodes to exactly the promised list. -/
+theorem C01_main_bounded (r : ListRequest) (h : WfReq r)
+    (hfit : (encodeReq r).length ≤ readBufferSize)
+    (hk : 1 ≤ (knownFields Cfg.facts.isQueryField r).length ∧
+      (knownFields Cfg.facts.isQueryField r).length ≤ Cfg.facts.maxFields)
+    (client : Client) (selected : List Server)
+    (hwt : ∀ s ∈ selected, WellTyped Schema.facts s.info)
+    (hip : ∀ s ∈ selected, s.ip.toBytes ≠ lastServerMarker)
+    (rnd : Crypt.Rnd) (defaultPort : Nat) :
+    ∃ reply, process Cfg.facts Schema.facts gameKey client (handlerPayload (encodeReq r)) selected rnd = .ok reply ∧
+      (GOA.refDecrypt Facts.gameEncKey r.challenge.toList reply).bind (fun plain => sdkDecode plain defaultPort) =
+        some (expectedList Schema.facts client (knownFields Cfg.facts.isQueryField r) selected) := by
+  have e : handlerPayload (encodeReq r) = encodeReq r := List.take_of_length_le hfit
+  rw [e]
+  exact C01_main r h hk client selected hwt hip rnd defaultPort
+
+/-- **A well-formed request longer than the read buffer gets no reply.**  The 16-bit length prefix of
+`encodeReq r` is the full length, which exceeds the 2048 bytes read, so `NewRequest` fails its
+`dataLen > len(data)` test with `ErrInvalidRequestFormat`; `process` returns that error and the handler
+closes the connection without writing anything — an error, never a truncated or wrong list. -/
+theorem C01_oversize_no_reply (r : ListRequest) (h : WfReq r) (hbig : readBufferSize < (encodeReq r).length)
+    (client : Client) (selected : List Server) (rnd : Crypt.Rnd) :
+    parseRequest Cfg.facts (handlerPayload (encodeReq r)) = .error .invalidFormat ∧
+    process Cfg.facts Schema.facts gameKey client (handlerPayload (encodeReq r)) selected rnd = .error .invalidFormat := by
+  have hlen := h.length
+  generalize hn : (reqBody r).length + 2 = n at hlen
+  have hdata : encodeReq r = UInt8.ofNat (n / 256) :: UInt8.ofNat (n % 256) :: reqBody r := by
+    unfold encodeReq; simp only [hn]
+  have hdl : (encodeReq r).length = n := by rw [hdata]; simp; omega
+  have hpl : (handlerPayload (encodeReq r)).length = readBufferSize := by
+    unfold handlerPayload
+    rw [List.length_take]
+    omega
+  have h2 : ¬ (handlerPayload (encodeReq r)).length < 2 := by rw [hpl]; decide
+  have hs2 : goSlice (handlerPayload (encodeReq r)) 0 2 = some [UInt8.ofNat (n / 256), UInt8.ofNat (n % 256)] := by
+    rw [goSlice_take _ 2 (by rw [hpl]; decide)]
+    unfold handlerPayload
+    rw [List.take_take, hdata]
+    rfl
+  have hcond : n < Cfg.facts.minLen ∨ n > (handlerPayload (encodeReq r)).length := by
+    right; rw [hpl]; omega
+  have hparse : parseRequest Cfg.facts (handlerPayload (encodeReq r)) = .error .invalidFormat := by
+    simp only [parseRequest, h2, if_false, hs2, orPanic_some, ok_bind, be16?_prefix n hlen, hcond, if_true]
+  exact ⟨hparse, by simp only [process, hparse, error_bind]⟩
+
 end Swat4.C01
 
 /-! non-vacuity: a concrete well-formed request with two known fields among three, and a well-typed
@@ -166,5 +234,71 @@ example : WellTyped Schema.facts exampleInfo := by
   simp [WellTyped, Schema.facts, Facts.browsingInfoSchema, exampleInfo]
 
 example : (⟨10, 1, 2, 3⟩ : IPv4).toBytes ≠ lastServerMarker := by decide
+
+/-- `exampleReq` fits the read buffer (hypothesis `hfit` of `C01_main_bounded`) -/
+example : (encodeReq exampleReq).length ≤ Swat4.C01.readBufferSize := by decide
+
+/-! the other two branches of `parse_encodeReq` -/
+
+/-- 21 known fields (the cap is 20) with an unknown one in between -/
+def exampleReqTooMany : ListRequest :=
+  { exampleReq with rawFields := List.replicate 10 (Bytes.ofAscii "hostname") ++ [Bytes.ofAscii "ping"] ++ List.replicate 11 (Bytes.ofAscii "numplayers") }
+
+set_option maxRecDepth 10000 in
+theorem exampleReqTooMany_wf : WfReq exampleReqTooMany := ⟨by decide, by decide, by decide, by decide, by decide, by decide⟩
+
+set_option maxRecDepth 10000 in
+/-- the `tooManyFields` branch: 21 whitelisted names ⇒ `ErrTooManyFieldsRequested` -/
+example : parseRequest Cfg.facts (encodeReq exampleReqTooMany) = .error .tooManyFields := by
+  rw [Swat4.C01.parse_encodeReq exampleReqTooMany exampleReqTooMany_wf]
+  decide
+
+/-- exactly 20 known fields is still served (the cap is inclusive) -/
+def exampleReqAtCap : ListRequest :=
+  { exampleReq with rawFields := List.replicate 20 (Bytes.ofAscii "hostname") ++ [Bytes.ofAscii "ping"] }
+
+example : (knownFields Cfg.facts.isQueryField exampleReqAtCap).length = Cfg.facts.maxFields := by decide
+
+/-- only names outside the whitelist (and the empty name) -/
+def exampleReqNoKnown : ListRequest :=
+  { exampleReq with rawFields := [Bytes.ofAscii "ping", [], Bytes.ofAscii "Hostname", Bytes.ofAscii "country"] }
+
+example : WfReq exampleReqNoKnown := ⟨by decide, by decide, by decide, by decide, by decide, by decide⟩
+
+/-- the `noFields` branch: no whitelisted name ⇒ `ErrNoFieldsRequested` -/
+example : parseRequest Cfg.facts (encodeReq exampleReqNoKnown) = .error .noFields := by
+  rw [Swat4.C01.parse_encodeReq exampleReqNoKnown ⟨by decide, by decide, by decide, by decide, by decide, by decide⟩]
+  decide
+
+/-- an empty field list is the same branch -/
+example : parseRequest Cfg.facts (encodeReq { exampleReq with rawFields := [] }) = .error .noFields := by
+  rw [Swat4.C01.parse_encodeReq _ ⟨by decide, by decide, by decide, by decide, by decide, by decide⟩]
+  decide
+
+/-- a well-formed request that does NOT fit the read buffer (hypothesis `hbig` of `C01_oversize_no_reply`):
+a 2100-byte filter -/
+def exampleReqBig : ListRequest := { exampleReq with filter := List.replicate 2100 0x61 }
+
+theorem reqBody_length (r : ListRequest) :
+    (reqBody r).length = r.header.length + r.gameName.length + r.queryGame.length + r.filter.length +
+      (joinFields r.rawFields).length + 17 := by
+  simp [reqBody]; omega
+
+theorem exampleReqBig_length : (encodeReq exampleReqBig).length = 2160 := by
+  have h : (encodeReq exampleReqBig).length = (reqBody exampleReqBig).length + 2 := by simp [encodeReq]
+  have hf : exampleReqBig.filter.length = 2100 := List.length_replicate
+  have h1 : exampleReqBig.header.length = 7 := rfl
+  have h2 : exampleReqBig.gameName.length = 5 := rfl
+  have h3 : exampleReqBig.queryGame.length = 5 := rfl
+  have h4 : (joinFields exampleReqBig.rawFields).length = 24 := by decide
+  rw [h, reqBody_length, hf, h1, h2, h3, h4]
+
+example : WfReq exampleReqBig :=
+  ⟨by decide, by decide, by decide,
+   by intro x hx; have := (List.mem_replicate.1 hx).2; rw [this]; decide,
+   by decide,
+   by have := exampleReqBig_length; simp only [encodeReq, List.length_cons] at this; omega⟩
+example : Swat4.C01.readBufferSize < (encodeReq exampleReqBig).length := by
+  rw [exampleReqBig_length]; decide
 
 end NonVacuity
